@@ -109,9 +109,17 @@ const c20Sentinel = 0xEE
 // tight: the consumer starts only after the assembler goroutine has started (and, on one P, has
 // therefore parked in its first send), so that the first Read receives from a parked sender and
 // the calls that follow it run before the assembler is scheduled again.
-func c20Attempt(p c20Case, wd time.Duration, tight bool) *c20Run {
+//
+// alone: the verdict "stuck" does not come from a deadline but from a certificate taken from the
+// Go runtime: in one stop-the-world goroutine dump both goroutines of the case are parked in a
+// channel operation (or have exited) and at least one is parked.  Only these two goroutines can
+// reach the stream's channels, so nobody can ever wake them: a deadlock, however slow or loaded
+// the machine is.  A goroutine that is merely starved shows as runnable/running and the run goes
+// on waiting (hard cap c20HardCap).  Used for the second stage, with nothing else running.
+func c20Attempt(p c20Case, wd time.Duration, tight, alone bool) *c20Run {
 	run := &c20Run{asm: "stuck", cons: "stuck"}
 	var started int32
+	var asmGid, consGid int64
 	var rs tcpreader.ReaderStream // zero value unless made by NewReaderStream
 	if p.ini {
 		rs = tcpreader.NewReaderStream()
@@ -134,6 +142,9 @@ func c20Attempt(p c20Case, wd time.Duration, tight bool) *c20Run {
 	go func() { // assembler
 		defer close(asmDone)
 		status := "done"
+		if alone {
+			atomic.StoreInt64(&asmGid, c20GoID())
+		}
 		atomic.StoreInt32(&started, 1)
 		call := func(f func()) (ok bool) {
 			defer func() {
@@ -164,6 +175,9 @@ func c20Attempt(p c20Case, wd time.Duration, tight bool) *c20Run {
 		defer close(consDone)
 		status := "done"
 		closedOnce := false
+		if alone {
+			atomic.StoreInt64(&consGid, c20GoID())
+		}
 		if tight {
 			for atomic.LoadInt32(&started) == 0 {
 				runtime.Gosched()
@@ -273,22 +287,58 @@ func c20Attempt(p c20Case, wd time.Duration, tight bool) *c20Run {
 		run.cons = status
 		run.mu.Unlock()
 	}()
-	// watchdog: "stuck" = neither side finished and no call returned on either side for wd
-	tick := time.NewTicker(wd)
-	defer tick.Stop()
-	last := atomic.LoadInt64(&run.prog)
 	a, c := asmDone, consDone
-	for a != nil || c != nil {
-		select {
-		case <-a:
-			a = nil
-		case <-c:
-			c = nil
-		case <-tick.C:
-			if now := atomic.LoadInt64(&run.prog); now != last {
-				last = now
-			} else {
-				a, c = nil, nil
+	if !alone {
+		// first stage, fast: "suspect" = neither side finished and no call returned on either side for wd
+		tick := time.NewTicker(wd)
+		defer tick.Stop()
+		last := atomic.LoadInt64(&run.prog)
+		for a != nil || c != nil {
+			select {
+			case <-a:
+				a = nil
+			case <-c:
+				c = nil
+			case <-tick.C:
+				if now := atomic.LoadInt64(&run.prog); now != last {
+					last = now
+				} else {
+					a, c = nil, nil
+				}
+			}
+		}
+	} else {
+		// second stage: wait until both sides return or the runtime certifies a deadlock
+		poll := time.NewTicker(10 * time.Millisecond)
+		defer poll.Stop()
+		begin := time.Now()
+		last, lastChange := atomic.LoadInt64(&run.prog), time.Now()
+		var limit time.Duration
+		for a != nil || c != nil {
+			select {
+			case <-a:
+				a = nil
+			case <-c:
+				c = nil
+			case <-poll.C:
+				if now := atomic.LoadInt64(&run.prog); now != last {
+					last, lastChange = now, time.Now()
+				}
+				switch c20Certify(atomic.LoadInt64(&asmGid), atomic.LoadInt64(&consGid), a == nil, c == nil) {
+				case 1: // certified deadlock
+					a, c = nil, nil
+				case 0: // somebody is runnable: only slow
+					if time.Since(begin) > c20HardCap {
+						a, c = nil, nil
+					}
+				default: // no certificate available: a long no-progress deadline scaled by the machine's slowness
+					if limit == 0 {
+						limit = c20LongDeadline()
+					}
+					if time.Since(lastChange) > limit {
+						a, c = nil, nil
+					}
+				}
 			}
 		}
 	}
@@ -300,15 +350,113 @@ func c20Attempt(p c20Case, wd time.Duration, tight bool) *c20Run {
 	return snap
 }
 
-// free-running execution (watchdog 200 ms, a stuck result confirmed by a fresh run with 600 ms)
-func c20RunFree(p c20Case) *c20Run {
-	run := c20Attempt(p, 200*time.Millisecond, false)
-	if run.asm == "stuck" || run.cons == "stuck" {
-		// confirm with a fresh run and a longer watchdog, so that a loaded machine is not mistaken for a deadlock
-		run = c20Attempt(p, 600*time.Millisecond, false)
+const c20HardCap = 120 * time.Second
+
+// c20GoID: the id of the calling goroutine, from the header of its own stack dump.
+func c20GoID() int64 {
+	var b [64]byte
+	n := runtime.Stack(b[:], false)
+	f := strings.Fields(string(b[:n]))
+	if len(f) < 2 || f[0] != "goroutine" {
+		return -1
 	}
-	return run
+	id, err := strconv.ParseInt(f[1], 10, 64)
+	if err != nil {
+		return -1
+	}
+	return id
 }
+
+var c20DumpBuf = make([]byte, 1<<20)
+var c20DumpMu sync.Mutex
+
+// c20Certify: 1 = deadlock certain (every side has exited or is parked in a channel operation, at
+// least one is parked), 0 = some side is running/runnable/otherwise waiting, -1 = cannot tell.
+func c20Certify(asmGid, consGid int64, asmExited, consExited bool) int {
+	if (asmGid <= 0 && !asmExited) || (consGid <= 0 && !consExited) {
+		return -1
+	}
+	c20DumpMu.Lock()
+	defer c20DumpMu.Unlock()
+	var dump string
+	for {
+		n := runtime.Stack(c20DumpBuf, true) // stops the world: one consistent snapshot
+		if n < len(c20DumpBuf) {
+			dump = string(c20DumpBuf[:n])
+			break
+		}
+		c20DumpBuf = make([]byte, 2*len(c20DumpBuf))
+	}
+	if !strings.HasPrefix(dump, "goroutine ") {
+		return -1
+	}
+	parked := 0
+	for _, side := range []struct {
+		gid    int64
+		exited bool
+	}{{asmGid, asmExited}, {consGid, consExited}} {
+		if side.exited {
+			continue
+		}
+		hdr := "goroutine " + strconv.FormatInt(side.gid, 10) + " ["
+		i := strings.Index(dump, "\n"+hdr)
+		if i < 0 && !strings.HasPrefix(dump, hdr) {
+			continue // not in the dump: the goroutine has exited
+		}
+		st := dump[i+1+len(hdr):] // i == -1 when the header opens the dump
+		j := strings.IndexByte(st, ']')
+		if j < 0 {
+			return -1
+		}
+		st = st[:j]
+		if k := strings.IndexByte(st, ','); k >= 0 {
+			st = st[:k]
+		}
+		if strings.HasPrefix(st, "chan receive") || strings.HasPrefix(st, "chan send") || strings.HasPrefix(st, "select") {
+			parked++
+		} else {
+			return 0
+		}
+	}
+	if parked > 0 {
+		return 1
+	}
+	return 0
+}
+
+// c20LongDeadline: fallback when no certificate can be had: 5 s without any call returning,
+// scaled up (to at most 50 s) by how slow a goroutine ping-pong is right now.
+func c20LongDeadline() time.Duration {
+	ch, back := make(chan int), make(chan int)
+	go func() {
+		for v := range ch {
+			back <- v
+		}
+	}()
+	t0 := time.Now()
+	for i := 0; i < 2000; i++ {
+		ch <- i
+		<-back
+	}
+	close(ch)
+	el := time.Since(t0)
+	f := float64(el) / float64(2*time.Millisecond)
+	if f < 1 {
+		f = 1
+	}
+	if f > 10 {
+		f = 10
+	}
+	return time.Duration(f * float64(5*time.Second))
+}
+
+func c20Suspect(r *c20Run) bool { return r.asm == "stuck" || r.cons == "stuck" }
+
+// first stage (may run inside the worker pool): fast watchdog; a stuck result is only a suspicion
+func c20RunFree(p c20Case) *c20Run { return c20Attempt(p, 200*time.Millisecond, false, false) }
+
+// second stage (nothing else running): see c20Attempt, alone
+func c20ConfirmFree(p c20Case) *c20Run { return c20Attempt(p, 0, false, true) }
 
 // c20SingleP is set while the pool has pinned the process to one P.
 var c20SingleP int32
@@ -323,11 +471,13 @@ func c20RunTight(p c20Case) *c20Run {
 		prev := runtime.GOMAXPROCS(1)
 		defer runtime.GOMAXPROCS(prev)
 	}
-	run := c20Attempt(p, 200*time.Millisecond, true)
-	if run.asm == "stuck" || run.cons == "stuck" {
-		run = c20Attempt(p, 600*time.Millisecond, true)
-	}
-	return run
+	return c20Attempt(p, 200*time.Millisecond, true, false)
+}
+
+func c20ConfirmTight(p c20Case) *c20Run {
+	prev := runtime.GOMAXPROCS(1)
+	defer runtime.GOMAXPROCS(prev)
+	return c20Attempt(p, 0, true, true)
 }
 
 func c20Assemble(p c20Case, run, tight *c20Run) Result {
@@ -358,7 +508,8 @@ func c20Assemble(p c20Case, run, tight *c20Run) Result {
 		for i := 0; same && i < len(run.lines); i++ {
 			same = run.lines[i] == tight.lines[i]
 		}
-		if !same && p.ini {
+		// only completed runs are compared: a run cut short is reported by C20:progress, not here
+		if !same && p.ini && !c20Suspect(run) && !c20Suspect(tight) {
 			res.Oracle = append(res.Oracle, fmt.Sprintf("C20:schedule\tfree-running: %d calls, asm=%s cons=%s ret=%d; one P: %d calls, asm=%s cons=%s ret=%d",
 				len(run.lines), run.asm, run.cons, run.ret, len(tight.lines), tight.asm, tight.cons, tight.ret))
 		}
@@ -371,7 +522,15 @@ func (c20) runCase(c Case) Result {
 	if err != nil {
 		return Result{Obs: []string{"bad-case=" + err.Error()}}
 	}
-	return c20Assemble(p, c20RunFree(p), c20RunTight(p))
+	free := c20RunFree(p)
+	if c20Suspect(free) {
+		free = c20ConfirmFree(p)
+	}
+	tight := c20RunTight(p)
+	if c20Suspect(tight) {
+		tight = c20ConfirmTight(p)
+	}
+	return c20Assemble(p, free, tight)
 }
 
 // c20Oracle: the property, stated on what the real code did (independent of the model).
@@ -524,6 +683,18 @@ func (h c20) Run(c Case) Result {
 		phase(func(i int) { tight[i] = c20RunTight(parsed[i]) })
 		atomic.StoreInt32(&c20SingleP, 0)
 		runtime.GOMAXPROCS(prev)
+		// second stage, pool drained: every suspect is run again alone, one at a time, and only a
+		// certified deadlock is reported
+		for i := 0; i < n; i++ {
+			if ok[i] && c20Suspect(free[i]) {
+				free[i] = c20ConfirmFree(parsed[i])
+			}
+		}
+		for i := 0; i < n; i++ {
+			if ok[i] && c20Suspect(tight[i]) {
+				tight[i] = c20ConfirmTight(parsed[i])
+			}
+		}
 		for i, j := range c20Generated {
 			if ok[i] {
 				c20Memo[strings.Join(j.Ops, " ")] = c20Assemble(parsed[i], free[i], tight[i])
